@@ -973,5 +973,11 @@ def exact_name_first(ctx):
     return res
 
 
+# META update: declined clause 'model-glass accuracy' re-worded
+META['declined'] = [
+    'accuracy of the fitted model-glass coefficients (anchoring to (n_d, V_d) is decided by C20 MODEL-ANCHOR)' if _d.startswith('model-glass accuracy') else _d
+    for _d in META['declined']]
+
+
 RULES = [exact_name_first, no_stale, model_glass, formula_law, formula_dispatch, arity, lookup_literal, abbe,
          elementwise]
